@@ -65,8 +65,9 @@ def replay_instances(ctx):
         # every decay function x bump function (18 initial states): removal with a residual `after`, overshoot
         # below zero, value 0 with the tag kept, Close, Bump/Remove after Close
         inst("decayfn", ("p1", "p2"), ("p1a", "p2a"), tagpeers=("p1",), vals="{1}", decaymax=3, profile=3, prot1=("p1",),
-             dkinds=("fixed1", "fixed2", "half", "none", "residual", "zerokeep"),
-             bkinds=("bounded", "unbounded", "overwrite"), deltas="{1, 3}"),
+             dkinds=("fixed2", "half", "residual", "zerokeep") if ctx.quick else
+             ("fixed1", "fixed2", "half", "none", "residual", "zerokeep"),
+             bkinds=("bounded", "overwrite") if ctx.quick else ("bounded", "unbounded", "overwrite"), deltas="{1, 3}"),
         # VALUE dimension at its ends: classes {-2..2} sent to {MinInt, -100, 0, 100, MaxInt} by the harness
         inst("extreme", P3, ("p1a", "p2a", "p3a"), tagpeers=("p1", "p2"), vals="<-MCValsExt", profile=1, scale="extreme"),
     ]
@@ -338,11 +339,14 @@ def run(ctx):
         fs = ps.submit(_harness, ctx, "^TestVerifC14Stress$", None)
         fo = ps.submit(_harness, ctx, "^TestVerifC14Overlap$", None)
         fd = ps.submit(_harness, ctx, "^TestVerifC14Decay$", None)
+        fx = ps.submit(_harness, ctx, "^TestVerifC14Extremes$", None)
         fe = [pe.submit(_exhaustive, (ctx, i, ew)) for i in einsts]
         # a trim that skips a protected peer and closes another one / a forced trim closing a protected peer
         fg = [pe.submit(_reach, (ctx, einsts[0], probe, ew)) for probe in ("ReachProtSkip", "ReachForceProt")]
         fgate = pr.submit(_gate_instance, (ctx, gate_instance(ctx), gate_dir, 12000 if ctx.quick else 10 ** 9))
-        fr = [pr.submit(_replay_instance, (ctx, i, beh_dir)) for i in rinsts]
+        # the last two printing runs queue behind the exhaustive run (its workers are free by then)
+        fr = [pr.submit(_replay_instance, (ctx, i, beh_dir)) for i in rinsts[:-2]]
+        fr += [pe.submit(_replay_instance, (ctx, i, beh_dir)) for i in rinsts[-2:]]
         gres = fgate.result()
         log("C14: interference scripts done at %.1fs" % ctx.wall())
         fgh = ps.submit(_harness, ctx, "^TestVerifC14Gates$", gate_dir)
@@ -354,6 +358,7 @@ def run(ctx):
         stress = fs.result()
         overlap = fo.result()
         decay = fd.result()
+        extremes = fx.result()
         gates = fgh.result()
         log("C14: stress and interference scenarios done at %.1fs" % ctx.wall())
 
@@ -374,6 +379,9 @@ def run(ctx):
     div = classify_mismatches(ctx, stress, "stress")
     div += classify_mismatches(ctx, overlap, "overlap")
     div += classify_mismatches(ctx, decay, "decay")
+    div += classify_mismatches(ctx, extremes, "extremes")
+    if extremes["replayed"] < 100 or not (extremes.get("extra") or {}).get("trims_closing"):
+        raise MachineryError("vacuity guard: extreme-value histories %s" % extremes.get("extra"))
     dx = decay.get("extra") or {}
     if not decay["mismatches"] and not (dx.get("removals_with_residual") and dx.get("racing_steps") and dx.get("closes")):
         raise MachineryError("vacuity guard: decaying-tag histories %s" % dx)
@@ -404,10 +412,14 @@ def run(ctx):
                       "script_families_available": gres[5], "runs": gates["replayed"], "runs_delivered": gates["distinct"],
                       "detail": gx, "rule": gates.get("rule")},
         decaying_tags={"histories": decay["replayed"], "steps": decay["steps"], "detail": dx, "rule": decay.get("rule")},
+        extreme_values={"histories_completed": extremes["replayed"], "steps": extremes["steps"],
+                        "detail": extremes.get("extra"), "rule": extremes.get("rule")},
         overlapping_trims={"rounds": overlap["replayed"], "detail": overlap.get("extra"), "rule": overlap.get("rule")},
         stress_rounds=stress["replayed"], stress_operations=stress["steps"],
         divergences_L2=div, notes=ctx.notes[:10], rule=res.get("rule"), stress_rule=stress.get("rule"))
     return {"level": "model_checking", "coverage": cov, "assumptions": [
+        "value dimension: the model's tag values are small classes; the instance `extreme` maps the classes {-2..2} order-preservingly to {MinInt, -100, 0, 100, MaxInt}; sums of several extreme tags are explored by ledger-driven histories (TestVerifC14Extremes); a peer's value is the Go int sum of its tags, so the ledger's totals wrap around exactly like int addition and are compared with <, never subtracted",
+        "tag totals are checked against a harness-owned tag ledger after every step (plain + decaying, operations before Connected included); only the presence of an EMPTY early-tag entry and the pruning of an expired unprotected one by a trim are left free (L2)",
         "bounded instances: <=4 peers, <=2 connections per peer, <=2 tag names with values {1,2}, <=2 protection tags, grace <=2 clock units, watermarks low<=2/high<=4",
         "a trim only returns connections to close; the stub connections record Close/CloseWithError and the Disconnected notification is a separate step (as in the swarm, where it is asynchronous)",
         "ForceTrim is documented to ignore the grace period: the grace clause is applied to TrimOpenConns and the background trim only; for ForceTrim the order clause (protected only after all unprotected, lowest value first inside a class) is checked",
